@@ -4,8 +4,6 @@
 #define TETL_TYPE_TRAITS_IS_TRIVIAL_HPP
 
 #include <etl/_type_traits/bool_constant.hpp>
-#include <etl/_type_traits/is_trivially_copyable.hpp>
-#include <etl/_type_traits/is_trivially_default_constructible.hpp>
 
 namespace etl {
 
@@ -16,10 +14,10 @@ namespace etl {
 ///
 /// https://en.cppreference.com/w/cpp/types/is_trivial
 template <typename T>
-struct is_trivial : bool_constant<is_trivially_copyable_v<T> and is_trivially_default_constructible_v<T>> { };
+struct is_trivial : bool_constant<__is_trivial(T)> { };
 
 template <typename T>
-inline constexpr bool is_trivial_v = is_trivial<T>::value;
+inline constexpr bool is_trivial_v = __is_trivial(T);
 
 } // namespace etl
 
